@@ -658,6 +658,49 @@ func nbOpcodes(kind string) {
 			nontrivial(fmt.Sprintf("opcode|%s|%d", kind, op))
 		}
 	}
+	// (e) a release request of three records, one of which the table refuses (a name held by another
+	// address), at each position: the response is the answer for that request, so it cannot be a
+	// positive one, wherever the refused record stands (C18-r9-2)
+	for pos := 0; pos < 3; pos++ {
+		var rrs []nbtns.NBTNSResourceRecord
+		var names []string
+		for j := 0; j < 3; j++ {
+			nm := fmt.Sprintf("MR%dREC%d", pos, j)
+			names = append(names, nm)
+			table.RegisterName(nm, nbtns.Unique, ipA, time.Hour)
+			ip := ipA
+			if j == pos {
+				ip = ipB // not the owner: ReleaseName refuses
+			}
+			rrs = append(rrs, nbtns.NBTNSResourceRecord{Name: &nbtns.NetBIOSName{Name: nm}, Type: 0x20, Class: 1, TTL: 0, RDLength: uint16(len(ip)), RData: ip})
+		}
+		id++
+		pk := &nbtns.NBTNSPacket{Header: nbtns.NBTNSHeader{TransactionID: id, Flags: uint16(6)<<11 | 0x0100, Questions: 1, Answers: 3, Additional: 3},
+			Questions: []nbtns.NBTNSQuestion{{Name: &nbtns.NetBIOSName{Name: names[0]}, Type: 0x20, Class: 1}}, Answers: rrs, Additional: rrs}
+		raw, merr := pk.Marshal()
+		if merr != nil {
+			count("multi_release_not_encodable", 1)
+			continue
+		}
+		rm, ok := nbExchange(kind, addr, raw)
+		evals.Add(1)
+		cs := map[string]any{"server": kind, "refused_record_position": pos, "packet": hex.EncodeToString(raw)}
+		o, still := held(names[pos])
+		if !still || !o.Equal(ipA) {
+			count("multi_release_refused_record_not_refused", 1) // the table's business (C17), not judged here
+			continue
+		}
+		if ok && len(rm) >= 4 {
+			if binary.BigEndian.Uint16(rm) != id {
+				viol(fmt.Sprintf("opcode.%s:6:multi-record:wrong-id", kind), "response carries another transaction id", cs)
+			} else if rcodeOf(rm) == 0 {
+				viol(fmt.Sprintf("opcode.%s:6:multi-record:refusal-not-reported", kind), fmt.Sprintf("a NAME RELEASE REQUEST of three records whose record %d names a name held by another address (still held afterwards) got a positive response (rcode 0)", pos), cs)
+			}
+			nontrivial(fmt.Sprintf("multi-release|%s|%d", kind, pos))
+		} else {
+			count("multi_release_unanswered", 1)
+		}
+	}
 	// routing is by the OPCODE field alone: the other header bits of a request (AA, TC, RD, RA,
 	// the two reserved bits, B) in every background must not change which handler runs
 	for bi, bg := range []uint16{0x0000, 0x0110, 0x0010, 0x0080, 0x0180, 0x0090, 0x0500, 0x0300, 0x0140, 0x0120, 0x07F0} {
